@@ -393,7 +393,7 @@ class SocketAdapter(Path):
         return do()
 
     def _probe(self) -> None:
-        tr = getattr(self.adapter, "_AsyncioTransportStreamSocketAdapter__transport")
+        tr = harness.asyncio_transport_of(self.adapter)
         if tr.is_closing() and not self.closed_logged:
             self.closed_logged = True
             self.log({"ev": "inner_close", "i": 1})
